@@ -1101,7 +1101,14 @@ func main() {
 	repo := flag.String("repo", "/repo", "repository root")
 	tf := flag.String("targets", "", "targets JSON file (list of units) or a directory of such files")
 	outdir := flag.String("outdir", "", "directory for generated .v files")
+	only := flag.String("only", "", "comma-separated unit file names to (re)generate; empty = all")
 	flag.Parse()
+	want := map[string]bool{}
+	for _, u := range strings.Split(*only, ",") {
+		if u != "" {
+			want[u] = true
+		}
+	}
 	var units []unit
 	tfiles := []string{*tf}
 	if st, err := os.Stat(*tf); err == nil && st.IsDir() {
@@ -1123,6 +1130,9 @@ func main() {
 	}
 	status := 0
 	for _, u := range units {
+		if len(want) > 0 && !want[u.Out] {
+			continue
+		}
 		var b strings.Builder
 		b.WriteString("(* GENERATED by gofrag from /repo's working tree; do not edit. *)\n")
 		b.WriteString("From Coq Require Import ZArith Bool.\nFrom V Require Import Base.GoInt.\nOpen Scope Z_scope.\nOpen Scope bool_scope.\n\n")
